@@ -165,7 +165,11 @@ class BitStringPayloadDecoder(AbstractSimplePayloadDecoder):
                      decodeFun=None, substrateFun=None,
                      **options):
 
-        if substrateFun:
+        # called to collect a fragment of an enclosing constructed BIT STRING?
+        isFragment = substrateFun is self.substrateCollector
+
+        if substrateFun and not (
+                isFragment and tagSet[0].tagFormat != tag.tagFormatSimple):
             asn1Object = self._createComponent(asn1Spec, tagSet, noValue, **options)
 
             for chunk in substrateFun(asn1Object, substrate, length, options):
@@ -173,14 +177,14 @@ class BitStringPayloadDecoder(AbstractSimplePayloadDecoder):
 
             return
 
-        if not length:
+        if not length and not isFragment:
             raise error.PyAsn1Error('Empty BIT STRING substrate')
 
         for chunk in isEndOfStream(substrate):
             if isinstance(chunk, SubstrateUnderrunError):
                 yield chunk
 
-        if chunk:
+        if chunk and not isFragment:
             raise error.PyAsn1Error('Empty BIT STRING substrate')
 
         if tagSet[0].tagFormat == tag.tagFormatSimple:  # XXX what tag to check?
@@ -238,14 +242,32 @@ class BitStringPayloadDecoder(AbstractSimplePayloadDecoder):
                 prepend=bitString, padding=trailingBits
             )
 
-        yield self._createComponent(asn1Spec, tagSet, bitString, **options)
+        if isFragment:
+            yield self._asFragment(bitString)
+
+        else:
+            yield self._createComponent(asn1Spec, tagSet, bitString, **options)
+
+    def _asFragment(self, bitString):
+        # nested constructed fragment: hand assembled bits over to the
+        # enclosing BIT STRING the way a primitive fragment looks like
+        bitString = self.protoComponent.clone(bitString)
+
+        padding = (8 - len(bitString) % 8) % 8
+        if padding:
+            bitString <<= padding
+
+        return ints2octs((padding,)) + bitString.asOctets()
 
     def indefLenValueDecoder(self, substrate, asn1Spec,
                              tagSet=None, length=None, state=None,
                              decodeFun=None, substrateFun=None,
                              **options):
 
-        if substrateFun:
+        # called to collect a fragment of an enclosing constructed BIT STRING?
+        isFragment = substrateFun is self.substrateCollector
+
+        if substrateFun and not isFragment:
             asn1Object = self._createComponent(asn1Spec, tagSet, noValue, **options)
 
             for chunk in substrateFun(asn1Object, substrate, length, options):
@@ -284,7 +306,11 @@ class BitStringPayloadDecoder(AbstractSimplePayloadDecoder):
                 prepend=bitString, padding=trailingBits
             )
 
-        yield self._createComponent(asn1Spec, tagSet, bitString, **options)
+        if isFragment:
+            yield self._asFragment(bitString)
+
+        else:
+            yield self._createComponent(asn1Spec, tagSet, bitString, **options)
 
 
 class OctetStringPayloadDecoder(AbstractSimplePayloadDecoder):
@@ -297,7 +323,11 @@ class OctetStringPayloadDecoder(AbstractSimplePayloadDecoder):
                      tagSet=None, length=None, state=None,
                      decodeFun=None, substrateFun=None,
                      **options):
-        if substrateFun:
+        # called to collect a fragment of an enclosing constructed string?
+        isFragment = substrateFun is self.substrateCollector
+
+        if substrateFun and not (
+                isFragment and tagSet[0].tagFormat != tag.tagFormatSimple):
             asn1Object = self._createComponent(asn1Spec, tagSet, noValue, **options)
 
             for chunk in substrateFun(asn1Object, substrate, length, options):
@@ -336,7 +366,12 @@ class OctetStringPayloadDecoder(AbstractSimplePayloadDecoder):
 
             header += component
 
-        yield self._createComponent(asn1Spec, tagSet, header, **options)
+        if isFragment:
+            # nested constructed fragment yields its assembled octets
+            yield header
+
+        else:
+            yield self._createComponent(asn1Spec, tagSet, header, **options)
 
     def indefLenValueDecoder(self, substrate, asn1Spec,
                              tagSet=None, length=None, state=None,
